@@ -29,7 +29,7 @@ Definition dedupe_tool_real (fields : list Z) (d : Z) (input : list Z) : tool_re
   match parse_key_spec fields with
   | None => ToolBadOptions
   | Some ranges =>
-    match all_keys ranges d (records newline true input) with
+    match all_keys ranges d (tool_lines input) with
     | None => ToolKeyError
     | Some keyed =>
       match dedupe (list Z * N) snd keyed with
@@ -44,7 +44,7 @@ Definition dedupe_par_tool_real (fields : list Z) (d : Z) (input0 input1 : list 
   match parse_key_spec fields with
   | None => None
   | Some ranges =>
-    match all_keys ranges d (records newline true input0), all_keys ranges d (records newline true input1) with
+    match all_keys ranges d (tool_lines input0), all_keys ranges d (tool_lines input1) with
     | Some k0, Some k1 =>
       match dedupe_par (list Z * N) snd snd k0 k1 with
       | Ok (st, pairs) => Some (st, unrecords newline (map (fun p => fst (fst p)) pairs), unrecords newline (map (fun p => fst (snd p)) pairs))
